@@ -29,6 +29,29 @@ func ebnfName(t reflect.Type) string {
 	return string(unicode.ToUpper(first)) + name[size:]
 }
 
+// ebnfUnwrap strips the nodes that print nothing themselves: captures and plain ( ) groups.
+func ebnfUnwrap(n node) node {
+	for {
+		switch t := n.(type) {
+		case *capture:
+			n = t.node
+		case *group:
+			if t.mode != groupMatchOnce {
+				return n
+			}
+			n = t.expr
+		default:
+			return n
+		}
+	}
+}
+
+// ebnfIsModified reports whether n prints as a term that already ends in a ?, *, + or ! modifier.
+func ebnfIsModified(n node) bool {
+	g, ok := ebnfUnwrap(n).(*group)
+	return ok && g.mode != groupMatchOnce
+}
+
 type ebnfp struct {
 	name string
 	out  string
@@ -130,12 +153,25 @@ func buildEBNF(root bool, n node, seen map[node]bool, p *ebnfp, outp *[]*ebnfp) 
 
 	case *negation:
 		p.out += "~"
-		buildEBNF(false, n.node, seen, p, outp)
+		// ~~x and ~x+ would not mean (or not even parse as) ~(~x) and ~(x+).
+		_, nested := ebnfUnwrap(n.node).(*negation)
+		if nested || ebnfIsModified(n.node) {
+			p.out += "("
+			buildEBNF(true, n.node, seen, p, outp)
+			p.out += ")"
+		} else {
+			buildEBNF(false, n.node, seen, p, outp)
+		}
 
 	case *literal:
 		p.out += fmt.Sprintf("%q", n.s)
 
 	case *group:
+		// A term takes a single modifier: ("a"+)? must not be printed as "a"+?.
+		stacked := n.mode != groupMatchOnce && ebnfIsModified(n.expr)
+		if stacked {
+			p.out += "("
+		}
 		if child, ok := n.expr.(*group); ok && child.mode == groupMatchOnce {
 			buildEBNF(false, child.expr, seen, p, outp)
 		} else if child, ok := n.expr.(*capture); ok {
@@ -146,6 +182,9 @@ func buildEBNF(root bool, n node, seen map[node]bool, p *ebnfp, outp *[]*ebnfp) 
 			}
 		} else {
 			buildEBNF(false, n.expr, seen, p, outp)
+		}
+		if stacked {
+			p.out += ")"
 		}
 		switch n.mode {
 		case groupMatchNonEmpty:
